@@ -14,8 +14,49 @@ use std::time::Duration;
 
 pub type Counters = Rc<RefCell<Vec<u32>>>;
 
+thread_local! {
+    /// while set, destructors of `DPanic` payloads panic (after counting)
+    static ARMED: std::cell::Cell<bool> = const { std::cell::Cell::new(false) };
+}
+
+/// A payload whose destructor panics while ARMED: exactly-once drop must survive unwinding destructors.
+pub struct DPanic {
+    id: u32,
+    ctr: Counters,
+}
+impl Pay for DPanic {
+    const COUNTS: bool = true;
+    const PANICS: bool = true;
+    const NAME: &'static str = "DPanic";
+    fn make(id: u32, ctr: &Counters) -> Self {
+        Self { id, ctr: ctr.clone() }
+    }
+    fn id(&self) -> u32 {
+        self.id
+    }
+    fn intact(&self) -> bool {
+        true
+    }
+}
+impl Drop for DPanic {
+    fn drop(&mut self) {
+        {
+            let mut c = self.ctr.borrow_mut();
+            let i = self.id as usize;
+            if c.len() <= i {
+                c.resize(i + 1, 0);
+            }
+            c[i] += 1;
+        }
+        if ARMED.with(std::cell::Cell::get) && !std::thread::panicking() {
+            panic!("payload destructor panics");
+        }
+    }
+}
+
 pub trait Pay: Sized + 'static {
     const COUNTS: bool;
+    const PANICS: bool = false;
     const NAME: &'static str;
     fn make(id: u32, ctr: &Counters) -> Self;
     fn id(&self) -> u32;
@@ -100,7 +141,7 @@ pay_drop!(D100a8, 84, 8);
 pay_drop!(D208a16, 190, 16);
 pay_drop!(D2040a8, 2020, 8);
 
-pub const N_PAY: usize = 8;
+pub const N_PAY: usize = 9;
 
 #[derive(Clone, Debug)]
 pub enum Op {
@@ -272,7 +313,38 @@ fn replay_one<P: Pay>(ops: &[Op], cfg: &Cfg) -> Result<u64, Value> {
                 let qq = q.as_mut().unwrap();
                 let before = qq.len();
                 let h = handles[*id as usize].take().expect("behaviour cancels a handle twice");
+                if P::PANICS {
+                    ARMED.with(|a| a.set(true));
+                }
                 let r = catch_unwind(AssertUnwindSafe(|| qq.cancel(h)));
+                ARMED.with(|a| a.set(false));
+                if P::PANICS && before != *len {
+                    // the cancelled payload's destructor unwinds out of cancel: the payload must have been
+                    // destroyed exactly once, now and never again (checked at the queue drop); counters of
+                    // the queue are not compared after an unwinding destructor
+                    if r.is_ok() {
+                        return Err(fail(i, "destructor of the cancelled payload did not run inside cancel", "panic", "ok"));
+                    }
+                    if count(*id) != 1 {
+                        return Err(fail(i, "drop count of cancelled payload (unwinding destructor)", 1, count(*id)));
+                    }
+                    checks += 1;
+                    // skip to the queue drop
+                    if let Some(Op::DropAll { .. }) = ops.last() {
+                        let pending_now: Vec<u32> = all_ids.iter().copied().filter(|x| count(*x) == 0).collect();
+                        let qq = q.take().unwrap();
+                        if catch_unwind(AssertUnwindSafe(|| drop(qq))).is_err() {
+                            return Err(fail(i, "drop of the queue panicked", "ok", "panic"));
+                        }
+                        for x in &all_ids {
+                            if count(*x) != 1 {
+                                return Err(fail(i, "final drop count after an unwinding destructor", 1, (x, count(*x), &pending_now)));
+                            }
+                            checks += 1;
+                        }
+                    }
+                    return Ok(checks);
+                }
                 if r.is_err() {
                     return Err(fail(i, "cancel panicked", "ok", "panic"));
                 }
@@ -327,7 +399,8 @@ pub fn replay_dispatch(ops: &[Op], cfg: &Cfg) -> Result<u64, Value> {
         4 => replay_one::<P24a4>(ops, cfg),
         5 => replay_one::<D208a16>(ops, cfg),
         6 => replay_one::<P1024a16>(ops, cfg),
-        _ => replay_one::<D2040a8>(ops, cfg),
+        7 => replay_one::<D2040a8>(ops, cfg),
+        _ => replay_one::<DPanic>(ops, cfg),
     }
 }
 
@@ -538,7 +611,7 @@ pub fn record(args: &[String]) {
         let n = *rng.pick(&ns);
         let w = Duration::from_nanos(*rng.pick(&ws));
         let kind = EMB_KINDS[rng.below(6) as usize]; // "far" excluded: max_tick is large here
-        let cfg = Cfg { n, w, emb: Emb::new(kind, n, w, max_tick, seed ^ r), pay: rng.below(N_PAY as u64) as usize };
+        let cfg = Cfg { n, w, emb: Emb::new(kind, n, w, max_tick, seed ^ r), pay: rng.below(8) as usize };
         let res = match cfg.pay {
             0 => record_run::<P1>(&mut rng, &cfg, nops, &mut out, max_tick),
             1 => record_run::<D16a8>(&mut rng, &cfg, nops, &mut out, max_tick),
